@@ -77,7 +77,11 @@ def judge(case):
             with Capture() as cap:
                 with Audit() as aud:
                     try:
-                        res = ColorPair(t, b, large).make_readable(mode=mode, very_readable=very, show=show, save_report=save)
+                        obj = ColorPair(t, b, large)
+                        if case.get("same_object"):
+                            # history on the same object: an earlier plain call with the OTHER very_readable value
+                            obj.make_readable(mode=mode, very_readable=not very)
+                        res = obj.make_readable(mode=mode, very_readable=very, show=show, save_report=save)
                     except Exception as e:
                         raise Violation("preview-raises:" + exc_bucket(e), f"make_readable(show={show}, save_report={save}) raised {e!r}; {optim.describe(case)}")
             if res != plain or type(res[0]) is not type(plain[0]):
@@ -137,6 +141,13 @@ def strategy(draw):
     if draw(st.integers(0, 2)) == 0:
         kinds = ["hsl", "rgb", "rgbws", "tuple", "list", "named", "nohash", "hex3", "rgbpct"]
     case = draw(optim.spelled_pair_case(pairs, translucent_share=15, kinds=kinds))
+    if draw(st.integers(0, 19)) == 0:
+        # the lenient alpha spelling the parser documents: a bare number in (1, 100] read as a percentage
+        c = draw(gc.rgb())
+        a = draw(st.sampled_from([50, 75, 100, 2, 99.5]))
+        case["text"] = f"rgba({c[0]}, {c[1]}, {c[2]}, {a})" if draw(st.booleans()) else gc.enc((c[0], c[1], c[2], a))
+        case["tkind"] = "translucent:percent-alpha"
+    case["same_object"] = draw(st.booleans())
     case["show"] = draw(st.booleans())
     case["save"] = draw(st.booleans())
     if draw(st.integers(0, 5)) == 0:
